@@ -286,10 +286,32 @@ def gen_jaeger(rng, n, thorough):
     return cases
 
 
+def gen_overlong(rng, n):
+    """id fields that are over-long (by 1, by a few, by many), empty or not hex, next to a good other id: nothing may be installed"""
+    cases = []
+    for _ in range(6 * n):
+        for extra in (1, 2, 3, 8, 16, 32, 100):
+            gt, gs = nz_hex(rng, rng.choice([32, 16, 1, 31]), rng.below(3)), nz_hex(rng, rng.choice([16, 1, 15]), rng.below(3))
+            lt, ls = nz_hex(rng, 32 + extra, rng.below(3)), nz_hex(rng, 16 + extra, rng.below(3))
+            smp = rng.choice(SAMPLING)
+            for t, s in ((lt, gs), (gt, ls), (lt, ls)):
+                cases.append(extb(b3_single(t, s, smp)))
+                cases.append(extb(None, t, s, smp))
+                cases.append(extj(jg(t, s, b"0", rng.choice([b"0", b"1", b"01"]))))
+            # a good context extracted just before, so that stale buffers would hold plausible ids
+            cases.append(extb(b3_single(nz_hex(rng, 32), nz_hex(rng, 16), b"1")))
+            cases.append(extb(b3_single(lt, gs, smp), gt, gs, b"1"))
+    for bad in (b"", b"g", b"0g", b" 1", b"1 ", b"\x00", b"-", b":", b"0x1"):
+        g16, g32 = nz_hex(rng, 16), nz_hex(rng, 32)
+        cases += [extb(b3_single(bad, g16, b"1")), extb(b3_single(g32, bad, b"1")), extb(None, bad, g16, b"1"), extb(None, g32, bad, b"1"),
+                  extj(jg(bad, g16, b"0", b"1")), extj(jg(g32, bad, b"0", b"1"))]
+    return cases
+
+
 def gen(rng, tier):
     thorough = tier != "quick"
     n = 12 if thorough else 1
-    return gen_rt(rng, n) + gen_b3(rng, n, thorough) + gen_jaeger(rng, n, thorough)
+    return gen_rt(rng, n) + gen_overlong(rng, n) + gen_b3(rng, n, thorough) + gen_jaeger(rng, n, thorough)
 
 
 def _unx(t):
